@@ -3,16 +3,15 @@ import math
 import random
 
 from . import core, worldgen as wg
-from .common import q3, world, ok, vals, rel_close
+from .common import q3, q3xyz, q2, world, ok, vals, rel_close
+from .check_C09 import mapped_point
 
 PID = 'C03'
 
 
-def far_points(rng, w, n):
+def clearance(w):
     t = w['truth']
     ctx = t['ctx']
-    base = t['base']
-    pts = []
     unit = ctx.unit()
 
     def clear_of_every_feature(sx, sy):
@@ -30,6 +29,42 @@ def far_points(rng, w, n):
             elif math.hypot(sx - cx, sy - cy) < reach + 1e5:
                 return False
         return True
+    return clear_of_every_feature
+
+
+def far_points_2d(rng, w, n):
+    """2D queries (x, z, depth) whose mapped point (statement of C09) is far from every feature: along the section line, both ways"""
+    t = w['truth']
+    ctx = t['ctx']
+    cross = t['cross']
+    clear = clearance(w)
+    out = []
+    tries = 0
+    while len(out) < n and tries < 40 * n:
+        tries += 1
+        d = rng.choice([0.0, 1.0e6, rng.uniform(0, 1e6), rng.uniform(0, 3e5), 1e-9])
+        if ctx.sph:
+            theta = rng.choice([-1, 1]) * math.radians(rng.uniform(15, 130))
+            r = ctx.R - d
+            x2, z2 = r * math.cos(theta), r * math.sin(theta)
+        else:
+            x2 = rng.choice([-1, 1]) * rng.uniform(25, 60) * max(t['base'][2], 1e6)
+            z2 = ctx.H - d
+        _, (sx, sy), _ = mapped_point(ctx, cross, x2, z2)
+        if ctx.sph and not (-85.0 < sy < 85.0):
+            continue
+        if not clear(sx, sy):
+            continue
+        out.append((x2, z2, d, (sx, sy)))
+    return out
+
+
+def far_points(rng, w, n):
+    t = w['truth']
+    ctx = t['ctx']
+    base = t['base']
+    pts = []
+    clear_of_every_feature = clearance(w)
     tries = 0
     while len(pts) < n and tries < 40 * n:
         tries += 1
@@ -53,7 +88,7 @@ def main(tier, seed, replay):
     rng = random.Random(seed * 104729 + 3)
     V = core.Verdict(PID, tier, seed)
     V.coverage['rule'] = ('generated worlds (both coordinate systems, random global constants and gravity incl. zero/negative, empty feature lists); points constructed far outside every '
-                          'feature plus every sampled point whose observed tag is -1; depths incl. 0, negative, 1e6 m; forced surface temperature checked at depth 0 for single and batched '
+                          'feature (3D entry point; on worlds with a cross section also the 2D entry points properties/temperature along the section line) plus every sampled point whose observed tag is -1; depths incl. 0, negative, 1e6 m; forced surface temperature checked at depth 0 for single and batched '
                           'requests, inside features as well; non-trivial = distinct (world with non-default constants, depth class) pairs')
     nworlds = 200 if tier == 'quick' else 4000
     cases = []
@@ -62,7 +97,7 @@ def main(tier, seed, replay):
                  [(5, 0, 0), (4, 0, 0), (1, 0, 0)]]
     for i in range(nworlds):
         wrng = random.Random(rng.getrandbits(48))
-        opts = {'nfeatures': (0, 4) if wrng.random() < 0.85 else 0, 'force_surface': wrng.random() < 0.4}
+        opts = {'nfeatures': (0, 4) if wrng.random() < 0.85 else 0, 'force_surface': wrng.random() < 0.4, 'cross_section': wrng.random() < 0.4}
         w = wg.gen_world(wrng, opts)
         g = w['truth']['globals']
         if wrng.random() < 0.1:
@@ -79,6 +114,27 @@ def main(tier, seed, replay):
         for (sx, sy, d) in wg.sample_points(wrng, w, 25):
             props = wrng.choice(proplists[1:])
             plan.append(('any', (sx, sy, d), props, q3(c, 1, ctx, sx, sy, d, props)))
+        if w['truth'].get('cross'):
+            # the 2D entry points: the background state along the section line, far from every feature
+            for (x2, z2, d, spos) in far_points_2d(wrng, w, 12):
+                props = wrng.choice(proplists)
+                plan.append(('far2d', (spos[0], spos[1], d), props, q2(c, 1, x2, z2, d, props)))
+                plan.append(('far2d', (spos[0], spos[1], d), [(1, 0, 0)], c.add('t2', 1, core.hx(x2), core.hx(z2), core.hx(d))))
+            # ... and near the features: wherever the 3D entry point reports tag -1 at the mapped point, the 2D entry point owes the background
+            base = w['truth']['base']
+            for _ in range(16):
+                d = wrng.choice([0.0, wrng.uniform(0, 3e5), wrng.uniform(0, 1e6)])
+                if ctx.sph:
+                    theta = math.radians(wrng.uniform(-3, 3) * max(base[2], 5.0))
+                    x2, z2 = (ctx.R - d) * math.cos(theta), (ctx.R - d) * math.sin(theta)
+                else:
+                    x2, z2 = wrng.uniform(-3, 3) * max(base[2], 5e5), ctx.H - d
+                xyz, spos, _ = mapped_point(ctx, w['truth']['cross'], x2, z2)
+                if ctx.sph and not (-85.0 < spos[1] < 85.0):
+                    continue
+                props = wrng.choice(proplists[1:])
+                i3 = q3xyz(c, 1, xyz[0], xyz[1], xyz[2], d, [(4, 0, 0)])
+                plan.append(('any2d', (spos[0], spos[1], d), props, (q2(c, 1, x2, z2, d, props), i3)))
         if g['force']:
             for (sx, sy, d) in wg.sample_points(wrng, w, 12, p_inside=0.9):
                 for props in (proplists[0], wrng.choice(proplists[1:])):
@@ -96,12 +152,21 @@ def main(tier, seed, replay):
             continue
         nondefault = any(k in w['json'] for k in ('potential mantle temperature', 'thermal expansion coefficient', 'specific heat', 'gravity model'))
         for (kind, (sx, sy, d), props, idx) in plan:
+            tag3 = None
+            if kind == 'any2d':
+                r3 = c.results[idx[1]]
+                idx = idx[0]
+                if not ok(r3):
+                    continue
+                tag3 = vals(r3)[0]
+                if tag3 != -1:
+                    continue        # inside a feature: C09's business
             res = c.results[idx]
             if res[0] == 'missing':
                 continue
             V.count()
             if not ok(res):
-                V.violation('query-threw-outside-features' if kind == 'far' else 'query-threw', {'world': fn, 'point': (sx, sy, d), 'res': res}) if kind == 'far' else None
+                V.violation('query-threw-outside-features' + (':2d' if kind == 'far2d' else ''), {'world': fn, 'point': (sx, sy, d), 'res': res}) if kind in ('far', 'far2d') else None
                 continue
             v = vals(res)
             if len(v) != sum(core.block_sizes(props)):
@@ -121,8 +186,11 @@ def main(tier, seed, replay):
                         V.nontrivial(('surface-inside', fn, sx, sy))
                 if kind == 'surface':
                     continue
-            if kind == 'far' and tag is not None and tag != -1:
-                V.violation('far-point-has-a-tag', {'world': fn, 'point': (sx, sy, d), 'tag': tag})
+            if kind in ('far', 'far2d') and tag is not None and tag != -1:
+                V.violation('far-point-has-a-tag' + (':2d' if kind == 'far2d' else ''), {'world': fn, 'point': (sx, sy, d), 'tag': tag})
+                continue
+            if kind == 'any2d' and tag != -1:
+                V.violation('2d-entry-point-reports-a-feature-where-the-3d-entry-point-reports-none', {'world': fn, 'mapped_surface_position': (sx, sy), 'depth': d, 'tag2d': tag, 'props': props})
                 continue
             if kind == 'any' and tag != -1:
                 continue
